@@ -1555,7 +1555,8 @@ class AbsPaths:
         the analysis does not look into is assumed to return in the scenario being evaluated (decision tables)."""
         self.fn = fn
         self.limit = limit
-        self.oracles = [(re.compile(p), f) for (p, f) in (oracles or [])]
+        self.oracle_specs = list(oracles or [])
+        self.oracles = [(re.compile(p), f) for (p, f) in self.oracle_specs]
         self.labels = {}
         for (a, b, lab) in fn.edges():
             self.labels[(a, b)] = lab
@@ -1665,6 +1666,35 @@ class AbsPaths:
                 else:
                     st[d["l"]] = res
                 return
+        # a crate-local callee that was not spliced (trait impls, atoms): evaluate it abstractly on the argument values; a
+        # unique answer is used, anything else is unknown
+        if t.get("resl") and t.get("res") in self.fn.facts.fns and getattr(self, "depth", 0) < 3 and not is_noise(t):
+            callee = self.fn.facts.fns[t["res"]]
+            if callee.d.get("kind") in ("Fn", "AssocFn") and callee.argc == len(site.args):
+                vals = []
+                for a in site.args:
+                    av = self._eval_operand(st, a)
+                    hops = 0
+                    while av is not None and av[0] in ("ref", "refmut") and hops < 4:
+                        inner = st.get(av[1])
+                        av = ("refval", inner) if inner is not None else None
+                        hops += 1
+                    vals.append(av)
+                if any(v is not None for v in vals):
+                    try:
+                        sub = AbsPaths(self.fn.facts.unit(callee, expand=True), limit=3000, oracles=self.oracle_specs)
+                        sub.depth = getattr(self, "depth", 0) + 1
+                        outs = {v for (v, _) in sub.outcomes(state={i + 1: v for i, v in enumerate(vals) if v is not None})}
+                        if len(outs) == 1:
+                            res = outs.pop()
+                    except AbsPaths.Undecided:
+                        res = None
+                    d = t["dest"]
+                    if d["p"] or res is None:
+                        st.pop(d["l"], None)
+                    else:
+                        st[d["l"]] = res
+                    return
         for pat, fnp in PURE_PREDICATES.items():
             if n.endswith("::" + pat) or n.endswith(pat):
                 if site.args:
